@@ -76,12 +76,14 @@ def post_det(ctx, call):
 
 
 def post_adjugate(ctx, call):
-    if call.exc is not None:
-        ctx.skip("adjugate", "raised")
-        return
     A = np.asarray(call.args[0])
     if A.ndim < 2 or A.shape[-1] != A.shape[-2] or A.size == 0 or not R.finite(A) or A.dtype.kind not in "iufc":
         ctx.skip("adjugate", "not a finite numeric square matrix")
+        return
+    if call.exc is not None:
+        # the classical adjoint is a polynomial in the entries: it exists for every square matrix, singular ones included
+        ctx.judge("adjugate", False, [A], what=f"adjugate raised {type(call.exc).__name__}: {str(call.exc)[:80]}", op="adjugate", nontrivial=True,
+                  feat={"n": int(A.shape[-1]), "exc": type(call.exc).__name__})
         return
     res = np.asarray(call.result)
     n = A.shape[-1]
@@ -522,18 +524,25 @@ def _matrix(rng, n, batch, dtype, variant):
         u = gen.coords(rng, tuple(batch) + (n,), 3, dtype)
         v = gen.coords(rng, tuple(batch) + (n,), 3, dtype)
         m = u[..., :, None] * v[..., None, :]
-    elif variant == 3:
+    elif variant in (3, 4, 5):
         m = m + 7 * np.eye(n, dtype=m.dtype)  # diagonally dominant-ish: well conditioned
+        if variant >= 4 and m.dtype.kind in "fc":
+            # the same well-conditioned matrices with small / large entries (determinants of 1e-12 ... 1e12: no formula may mistake
+            # a small determinant for a vanishing one)
+            m = m * (2.0 ** -10 if variant == 4 else 2.0 ** 7)
     return m
 
 
 def g_matrices(ctx, rng, i):
     u = U()
     n, batch, dtype = CONFIGS[i % len(CONFIGS)]
-    variant = (i // len(CONFIGS)) % 4
+    variant = (i // len(CONFIGS)) % 6
     m = _matrix(rng, n, batch, dtype, variant)
     u.det(m)
-    u.adjugate(m)
+    try:
+        u.adjugate(m)
+    except Exception:
+        pass  # judged by the monitor: the classical adjoint exists for every square matrix
     try:
         u.inv(m)
     except np.linalg.LinAlgError:
@@ -699,7 +708,7 @@ def g_hat_mat(ctx, rng, i):
 
 
 GROUPS = [
-    {"name": "matrices", "fn": g_matrices, "quick": len(CONFIGS) * 4, "thorough": len(CONFIGS) * 4 * 12},
+    {"name": "matrices", "fn": g_matrices, "quick": len(CONFIGS) * 6, "thorough": len(CONFIGS) * 6 * 8},
     {"name": "spaces", "fn": g_spaces, "quick": 480, "thorough": 4800},
     {"name": "roots", "fn": g_roots, "quick": 1200, "thorough": 24000},
     {"name": "multiple_lattice", "fn": g_multiple_lattice, "quick": 125 * 125 // 4, "thorough": 125 * 125 + 81 * 81},
